@@ -33,10 +33,11 @@ type classObs struct {
 	title            bool
 	displayed        bool
 	displayPanic     string
+	htype            int // the type the handler reports for a CRC-valid frame of this type
 }
 
 func classify(typ int) *classObs {
-	o := &classObs{}
+	o := &classObs{htype: typ}
 	o.msm4, o.msm7, o.msm = utils.MSM4(typ), utils.MSM7(typ), utils.MSM(typ)
 	o.constellation = utils.GetConstellation(typ)
 	o.title = len(utils.GetTitleAndComment(typ).Title) > 0
@@ -49,6 +50,7 @@ func classify(typ int) *classObs {
 		m, _ = h.GetMessage(f)
 		o.ts = m != nil && m.SentAt != ""
 		if m != nil {
+			o.htype = m.MessageType
 			m.ErrorMessage = "" // look at the dispatch, not at the time-line error
 		}
 	} else {
@@ -86,8 +88,8 @@ func init() {
 	opTable["classify"] = func(t []string) *Obs {
 		typ := atoi(t[1])
 		o := classify(typ)
-		line := fmt.Sprintf("msm4=%v msm7=%v msm=%v const=%s hdr=%v analyse=%s ts=%v title=%v",
-			o.msm4, o.msm7, o.msm, strings.ReplaceAll(o.constellation, " ", "_"), o.hdr, o.analyse, o.ts, o.title)
+		line := fmt.Sprintf("msm4=%v msm7=%v msm=%v const=%s hdr=%v analyse=%s ts=%v title=%v htype=%d",
+			o.msm4, o.msm7, o.msm, strings.ReplaceAll(o.constellation, " ", "_"), o.hdr, o.analyse, o.ts, o.title, o.htype)
 		return &Obs{Line: line, Data: o}
 	}
 	props["C20"] = &Prop{
@@ -116,6 +118,9 @@ func init() {
 			}
 			var typ int
 			fmt.Sscanf(op, "classify %d", &typ)
+			if d.htype != typ {
+				return fmt.Sprintf("the handler reports type %d for a CRC-valid frame whose type field is %d", d.htype, typ)
+			}
 			is4 := typ >= 1074 && typ <= 1134 && typ%10 == 4
 			is7 := typ >= 1077 && typ <= 1137 && typ%10 == 7
 			names := map[int]string{107: "GPS", 108: "Glonass", 109: "Galileo", 110: "SBAS", 111: "QZSS", 112: "Beidou", 113: "NavIC/IRNSS"}
